@@ -93,6 +93,8 @@ pub fn gen_plans(rng: &mut Prng, trace: &Trace, n_plans: usize) -> Vec<Vec<CellE
                 plans.push(vec![CellEdit { col: *col, ord: *ord, val }]);
             }
         }
+        // PRNG order: the caller keeps a prefix when a full walk would take hours
+        rng.shuffle(&mut plans);
         return plans;
     }
     for _ in 0..n_plans {
@@ -839,6 +841,17 @@ fn run_generic<C: midnight_proofs::plonk::Circuit<Fq>>(s: &Scn, st: &mut Stats, 
     }
     if k >= 14 && s.only.is_none() {
         plans.truncate(if k >= 16 { 2 } else { 4 });
+    }
+    // a walk of every assignment: complete for small circuits, a PRNG-chosen subset whose
+    // size shrinks with the table height for the others (each plan is a full synthesis)
+    if s.n_plans == 0 && s.only.is_none() {
+        let cap = ((1usize << 21) >> k).clamp(64, 1600);
+        if plans.len() > cap {
+            st.inc("walks_truncated");
+            plans.truncate(cap);
+        } else {
+            st.inc("walks_complete");
+        }
     }
     for plan in &plans {
         let r = run_mock(k, &known(), plan, false);
